@@ -15,6 +15,11 @@
 (*   StoreKind  : raw store updates (compare-and-set on old values)         *)
 (*   RejectOnly : third-party kinds the harness has no valid payload for:   *)
 (*                only the "another authority is rejected" half is driven   *)
+(*   ResetKind  : kinds that also have a delete / reset form (gov custom     *)
+(*                params removal, erc20 alias removal, gov switch entry     *)
+(*                removal, raw store overwrite of an existing value); the   *)
+(*                world holds targets on which that form WOULD have an      *)
+(*                effect; cleared[k] counts the targets it has consumed     *)
 (* applied[k] counts how often kind k took effect; the adapter projects it  *)
 (* from a kind-specific observable (parameter value, oracle list, token     *)
 (* registered, switch list, store value, allowance set by the contract call)*)
@@ -23,22 +28,23 @@
 (***************************************************************************)
 EXTENDS Integers, Sequences, FiniteSets, TLC, Json
 
-CONSTANTS Kind, Routable, StoreKind, RejectOnly,
-          Auth,        \* subset of {"gov","othermodule","user","empty","gov-hex","gov-otherprefix"}; an authority is
-                       \* identified by the account it decodes to, so other spellings of the gov bech32 address
-                       \* (upper case) are not a class of their own
+CONSTANTS Kind, Routable, StoreKind, RejectOnly, ResetKind,
+          Auth,        \* subset of {"gov","othermodule","user","empty","gov-hex","gov-otherprefix","gov-suffix-21",
+                       \* "gov-suffix-32","gov-prefix-32"}; an authority is identified by the account it decodes
+                       \* to, so other spellings of the gov bech32 address (upper case) are not a class of their
+                       \* own, while longer addresses that merely CONTAIN the gov bytes are other accounts
           MaxApplied   \* bound on the total number of applications
 
-VARIABLES applied, dirty, op
-svars == <<applied, dirty>>
+VARIABLES applied, cleared, dirty, op
+svars == <<applied, cleared, dirty>>
 vars  == <<svars, op>>
 
 None == "none"
 OldClass == {"match", "mismatch-first", "mismatch-second"}
-Abs == [applied |-> applied, dirty |-> dirty]
+Abs == [applied |-> applied, cleared |-> cleared, dirty |-> dirty]
 Op(name, kind, auth, pay, old, res) == [name |-> name, kind |-> kind, auth |-> auth, pay |-> pay, old |-> old, res |-> res]
 
-Init == /\ applied = [k \in Kind |-> 0] /\ dirty = FALSE
+Init == /\ applied = [k \in Kind |-> 0] /\ cleared = [k \in Kind |-> 0] /\ dirty = FALSE
         /\ op = Op("Init", None, None, None, None, "ok")
 
 Rej(o) == /\ op' = [o EXCEPT !.res = "rej"] /\ UNCHANGED svars
@@ -47,16 +53,18 @@ Rej(o) == /\ op' = [o EXCEPT !.res = "rej"] /\ UNCHANGED svars
 (* old-value class old                                                                               *)
 Priv(k, au, pay, old) ==
   LET this == Op("Priv", k, au, pay, old, "ok")
-      okk  == /\ k \in Routable /\ au = "gov" /\ pay = "valid"
+      okk  == /\ k \in Routable /\ au = "gov"
+              /\ (pay = "valid" \/ (pay = "reset" /\ k \in ResetKind))
               /\ (k \in StoreKind => old = "match")
   IN IF ~okk THEN Rej(this) ELSE
-     /\ applied' = [applied EXCEPT ![k] = @ + 1]
+     /\ IF pay = "valid" THEN applied' = [applied EXCEPT ![k] = @ + 1] /\ UNCHANGED cleared
+                         ELSE cleared' = [cleared EXCEPT ![k] = @ + 1] /\ UNCHANGED applied
      /\ UNCHANGED dirty /\ op' = this
 
 Probe == op' = Op("Probe", None, None, None, None, "ok") /\ UNCHANGED svars
 
 Next ==
-  \/ \E k \in Kind \ RejectOnly, au \in Auth, pay \in {"valid", "invalid"} :
+  \/ \E k \in Kind \ RejectOnly, au \in Auth, pay \in {"valid", "invalid"} \cup (IF k \in ResetKind THEN {"reset"} ELSE {}) :
         IF k \in StoreKind THEN \E old \in OldClass : Priv(k, au, pay, old) ELSE Priv(k, au, pay, None)
   \/ \E k \in RejectOnly, au \in Auth \ {"gov"} : Priv(k, au, "invalid", None)
   \/ Probe
@@ -70,26 +78,27 @@ Spec == Init /\ [][Next]_vars
 C16_RejectedLeavesNoTrace == ~dirty
 
 \* an effect exists only for the governance authority
-A_C16_OnlyGov == (applied' # applied) => (op'.name = "Priv" /\ op'.auth = "gov" /\ op'.res = "ok")
+A_C16_OnlyGov == (applied' # applied \/ cleared' # cleared) => (op'.name = "Priv" /\ op'.auth = "gov" /\ op'.res = "ok")
 C16_OnlyGov == [][A_C16_OnlyGov]_vars
 
 \* with any other authority the message is rejected
-A_C16_OtherAuthorityRejected == (op'.name = "Priv" /\ op'.auth # "gov") => (op'.res = "rej" /\ applied' = applied)
+A_C16_OtherAuthorityRejected == (op'.name = "Priv" /\ op'.auth # "gov") => (op'.res = "rej" /\ applied' = applied /\ cleared' = cleared)
 C16_OtherAuthorityRejected == [][A_C16_OtherAuthorityRejected]_vars
 
 \* a raw store update applies only if the current values equal the stated old values
-A_C16_StoreCompareAndSet == \A k \in StoreKind : applied'[k] # applied[k] => op'.old = "match"
+A_C16_StoreCompareAndSet == \A k \in StoreKind : (applied'[k] # applied[k] \/ cleared'[k] # cleared[k]) => op'.old = "match"
 C16_StoreCompareAndSet == [][A_C16_StoreCompareAndSet]_vars
 
 \* only the named kind takes effect, once
-A_C16_OnlyNamedKind == \A k \in Kind : applied'[k] # applied[k] => (op'.kind = k /\ applied'[k] = applied[k] + 1)
+A_C16_OnlyNamedKind == \A k \in Kind : /\ applied'[k] # applied[k] => (op'.kind = k /\ op'.pay = "valid" /\ applied'[k] = applied[k] + 1)
+                                        /\ cleared'[k] # cleared[k] => (op'.kind = k /\ op'.pay = "reset" /\ cleared'[k] = cleared[k] + 1)
 C16_OnlyNamedKind == [][A_C16_OnlyNamedKind]_vars
 
 ---------------------------------------------------------------------------
 RECURSIVE SumAll(_, _)
 SumAll(S, f) == IF S = {} THEN 0 ELSE LET x == CHOOSE y \in S : TRUE IN f[x] + SumAll(S \ {x}, f)
 View == svars
-Bounded == SumAll(Kind, applied') <= MaxApplied
+Bounded == SumAll(Kind, applied') + SumAll(Kind, cleared') <= MaxApplied
 EdgeDump == /\ IF op.name = "Init" \/ op'.res = "ok"
                THEN PrintT(<<"EDGE", ToJson([from |-> Abs, op |-> op', to |-> Abs'])>>)
                ELSE TRUE
